@@ -107,6 +107,10 @@ def snapshot(b, hist_prev):
             api = b.get_portfolio_as_dict(pid)
             d['api'] = {a: {k: _num(v) for k, v in row.items()} for a, row in api.items()}
             d['api_order'] = list(api.keys())
+            # the report belongs to the caller, who may edit it (the portfolio construction model does)
+            for a in list(api):
+                api[a]['quantity'] = 0
+            api['__caller_scratch__'] = {'quantity': 0}
         except Exception as e:
             d['api'] = {'error': type(e).__name__}
             d['api_order'] = []
@@ -219,6 +223,8 @@ def execute(case):
             elif kind == 'submit':
                 order_id = next_id[0]
                 next_id[0] += 1
+                if len(op) > 4 and op[4] is not None and op[4] < order_id:
+                    order_id = op[4]              # an identifier the caller has used before (documented `order_id=` option)
                 if case.get('auto_ids'):
                     b.submit_order(op[1], Order(b.current_dt, op[2], op[3]))      # the broker's own (random) order identifiers
                 else:
